@@ -482,8 +482,13 @@ where
       Ok(())
     } else {
       if let Some(conn_pool) = &self.conn_pool {
-        conn_pool.retain(|_, _| false);
+        // `detach` only signals the shutdown; wait here for the connection tasks to finish.
+        let removed = conn_pool.retain(|_, _| false).removed;
         conn_pool.close();
+
+        for conn in removed {
+          conn.shutdown().await?;
+        }
       }
       Ok(())
     }
@@ -596,27 +601,23 @@ where
   }
 
   fn detach(&self, conn: &mut ClientConn<S, HS, ST>) {
-    tokio::task::block_in_place(|| {
-      tokio::runtime::Handle::current().block_on(async {
-        match conn.shutdown().await {
-          Ok(_) => {
-            debug!(
-              client_id = conn.client_id.as_str(),
-              connection_id = conn.conn_id,
-              service_type = ST::NAME,
-              "detached client connection"
-            )
-          },
-          Err(e) => error!(
-            client_id = conn.client_id.as_str(),
-            connection_id = conn.conn_id,
-            service_type = ST::NAME,
-            "failed to detach client connection: {}",
-            e
-          ),
-        }
-      })
-    });
+    // `detach` is a synchronous hook that deadpool runs on whatever thread happens to be using the pool: from
+    // `get()` when recycling a connection fails, and from `retain()` while the pool's internal lock is held.
+    // It must neither block nor panic. In particular `tokio::task::block_in_place` cannot be used here: it panics
+    // on a current-thread runtime, which is what the server's connection workers (and its main thread) run on.
+    //
+    // So only signal the shutdown: the reader and writer tasks observe the token, stop, and close the stream on
+    // their own. Callers that are able to wait for them (`recycle`, `ClientInner::shutdown`) await
+    // `ClientConn::shutdown` themselves.
+    conn.shutdown_token.cancel();
+    conn.task_tracker.close();
+
+    debug!(
+      client_id = conn.client_id.as_str(),
+      connection_id = conn.conn_id,
+      service_type = ST::NAME,
+      "detached client connection"
+    );
   }
 }
 
